@@ -224,6 +224,7 @@ func C03(run *core.Run) {
 	for t := 0; t < nt; t++ {
 		conc := abs.NewConc()
 		g := NewGen(r, fmt.Sprintf("h%d_", t))
+		g.Extreme = t%3 == 1
 		cap := 1 + r.Intn(12)
 		var st storeAdapter
 		if t%4 == 3 {
